@@ -32,6 +32,7 @@ def handleLine (line : String) : String :=
     | "c14a" => viaSpec (C14.handleAscii args) obs
     | "c14n" => viaSpec (C14.handleNum args) obs
     | "c01" => Req.handleC01 args obs
+    | "c02" => Req.handleC02 args obs
     | "c03" => Req.handleC03 args obs
     | "c07" => C07.handle args obs
     | "c16n" => C16.handleNew args obs
